@@ -1,1 +1,267 @@
+//! C16 — any binary input ends in success or a diagnostic, never a crash.
+//!
+//! The property's own quantifier is a storage-fault model.  Every bundled binary and every distinct
+//! compiler output of the corpus is corrupted in storage (truncation at every offset, byte / word /
+//! dword faults, zeroed / duplicated / lost blocks, torn mixes of two files; seeded double faults)
+//! and faulted at read time (EIO / EINTR / short reads at every read event), then fed to decompile
+//! (five option sets), and for ANM also to `extract` and to `compile -i <file>` (image source).
+//! Monitors: panic, abort, signal, CPU budget (hang), address-space budget (memory exhaustion),
+//! exit/diagnostic consistency, file named in the error.
 
+use crate::case::{Base, Case, Input, Step};
+use crate::corrupt::{self, Corruption};
+use crate::engine::*;
+use crate::report::CheckResult;
+use crate::rng::{self, Rng};
+use crate::scen;
+use serde_json::json;
+use std::collections::{BTreeMap, HashSet};
+use std::sync::Arc;
+
+fn s(x: &str) -> String {
+    x.to_string()
+}
+
+#[derive(Clone)]
+pub struct Target {
+    pub name: String,
+    pub cmd: String,
+    pub game: String,
+    pub mode: Vec<String>,
+    pub inputs: Vec<Input>,
+    pub mapargs: Vec<String>,
+    pub path: String,
+    pub base: Base,
+    pub bytes: Arc<Vec<u8>>,
+    pub peers: Vec<String>,
+    pub bundled: bool,
+    /// decompiled text of the pristine file (spec for the image-source scenario)
+    pub spec: Option<String>,
+}
+
+const OPTION_SETS: [&[&str]; 5] = [&[], &["--no-blocks"], &["--no-intrinsics", "--no-arguments"], &["--no-diff-switches", "--no-calls"], &["--show-instr-offsets"]];
+
+pub fn n_commands(t: &Target) -> usize {
+    if t.cmd == "truanm" {
+        7
+    } else {
+        5
+    }
+}
+
+/// The k-th command applied to (a possibly corrupted copy of) the target.
+pub fn target_case(t: &Target, k: usize, corruption: &[crate::case::CorruptOp], plan: &str) -> Case {
+    let mut inputs = t.inputs.clone();
+    inputs.push(Input { path: t.path.clone(), base: t.base.clone(), corrupt: corruption.to_vec() });
+    let k = k % n_commands(t);
+    let mut step = if k < 5 {
+        let mut argv = vec![t.cmd.clone(), s("decompile"), s("-g"), t.game.clone(), t.path.clone()];
+        argv.extend(t.mode.iter().cloned());
+        if k != 3 {
+            argv.extend(t.mapargs.iter().cloned());
+        }
+        let mut optional = vec![];
+        for f in OPTION_SETS[k] {
+            optional.push(argv.len());
+            argv.push(s(f));
+        }
+        let mut st = Step::new(argv);
+        st.optional = optional;
+        st
+    } else if k == 5 {
+        Step::new(vec![s("truanm"), s("extract"), s("-g"), t.game.clone(), t.path.clone(), s("-o"), s("extracted")])
+    } else {
+        inputs.push(Input::text("spec.txt", t.spec.as_deref().unwrap_or("")));
+        Step::new(vec![s("truanm"), s("compile"), s("-g"), t.game.clone(), s("spec.txt"), s("-o"), s(scen::OUT), s("-i"), t.path.clone()])
+    };
+    step.plan = plan.to_string();
+    Case { property: "C16".into(), oracle: "term".into(), name: format!("{} cmd#{}", t.name, k), inputs, steps: vec![step], meta: if k < 5 { json!({"names": [t.path.rsplit('/').next().unwrap_or(&t.path)]}) } else { json!({}) } }
+}
+
+/// Bundled binaries + distinct compiler outputs of the corpus (compiled now, from the current tree).
+pub fn collect_targets(ctx: &Ctx, stats: &mut Stats) -> Vec<Target> {
+    let mut targets: Vec<Target> = vec![];
+    for item in ctx.corpus.binaries() {
+        let path = item.path.clone().unwrap();
+        let peers: Vec<String> = ctx.corpus.binaries().filter(|o| o.cmd == item.cmd && o.id != item.id).map(|o| o.path.clone().unwrap()).take(3).collect();
+        targets.push(Target {
+            name: item.id.clone(),
+            cmd: item.cmd.clone(),
+            game: item.game.clone(),
+            mode: scen::msg_mode_flags(item),
+            inputs: vec![Input::tree("map/")],
+            mapargs: item.mapfile.iter().flat_map(|m| vec![s("-m"), m.clone()]).collect(),
+            path: path.clone(),
+            base: Base::Corpus(path.clone()),
+            bytes: ctx.corpus.tree.get(&path).cloned().unwrap(),
+            peers,
+            bundled: true,
+            spec: None,
+        });
+    }
+    // compiler outputs
+    let sources: Vec<_> = scen::source_items(&ctx.corpus).into_iter().cloned().collect();
+    let (outs, st, _f, _h) = par_map(ctx, &sources, |w, _, item| {
+        let c = scen::compile_case(item, false);
+        let g = w.golden(&c);
+        g.get(0).filter(|o| o.ok()).and_then(|o| o.files.get(scen::OUT).cloned())
+    });
+    stats.merge(st);
+    let mut seen: HashSet<u64> = HashSet::new();
+    for (item, out) in sources.iter().zip(outs.into_iter()) {
+        let bytes = match out {
+            Some(b) => b,
+            None => continue,
+        };
+        if !seen.insert(rng::hash_bytes(&bytes)) {
+            continue;
+        }
+        let mut inputs = scen::base_inputs(item);
+        let mut mapargs = vec![];
+        for (i, t) in item.mapfiles.iter().chain(item.compile_mapfiles.iter()).enumerate() {
+            let name = format!("mapfile-{}", i + 1);
+            inputs.push(Input::text(&name, t));
+            mapargs.push(s("-m"));
+            mapargs.push(name);
+        }
+        let peers: Vec<String> = ctx.corpus.binaries().filter(|o| o.cmd == item.cmd).map(|o| o.path.clone().unwrap()).take(2).collect();
+        targets.push(Target {
+            name: format!("compiled:{}", item.id),
+            cmd: item.cmd.clone(),
+            game: item.game.clone(),
+            mode: item.compile_args.iter().filter(|a| *a == "--mission" || *a == "--ending").cloned().collect(),
+            inputs,
+            mapargs,
+            path: s("input.bin"),
+            base: Base::Bytes(bytes.clone()),
+            bytes: Arc::new(bytes),
+            peers,
+            bundled: false,
+            spec: None,
+        });
+    }
+    // pristine decompile of ANM targets -> spec for the image-source scenario
+    let (specs, st, _f, _h) = par_map(ctx, &targets, |w, _, t| {
+        if t.cmd != "truanm" {
+            return None;
+        }
+        let c = target_case(t, 0, &[], "");
+        let g = w.golden(&c);
+        g.get(0).filter(|o| o.ok()).map(|o| String::from_utf8_lossy(&o.stdout).into_owned())
+    });
+    stats.merge(st);
+    for (t, sp) in targets.iter_mut().zip(specs.into_iter()) {
+        t.spec = sp;
+    }
+    targets
+}
+
+pub fn run(ctx: &Ctx) -> CheckResult {
+    let quick = ctx.tier == Tier::Quick;
+    let mut stats = Stats::default();
+    let targets = collect_targets(ctx, &mut stats);
+
+    // ---- storage corruptions
+    let mut work: Vec<(usize, Vec<(usize, Corruption)>)> = vec![];
+    let mut n_space = 0usize;
+    let mut n_selected = 0usize;
+    let mut kinds: BTreeMap<&'static str, u64> = BTreeMap::new();
+    // quick: bundled files get a 1/8 (header) .. 1/48 (body) slice, one compiled output per format class a thinner one
+    let mut class_seen: HashSet<String> = HashSet::new();
+    for (ti, t) in targets.iter().enumerate() {
+        let all = corrupt::binary_faults(&t.bytes, &t.peers);
+        n_space += all.len();
+        let seed = rng::mix(ctx.seed, &t.name, 16);
+        let cls = format!("{}:{}:{:?}", t.cmd, t.game, t.mode);
+        let first_of_class = class_seen.insert(cls);
+        let big = t.bytes.len() > 4096;
+        let mut sel = if quick {
+            if t.bundled {
+                corrupt::select(&all, 160, 16, if big { 6000 } else { 64 }, seed)
+            } else if first_of_class || t.name.contains("extra/") {
+                corrupt::select(&all, 128, 32, 128, seed)
+            } else {
+                vec![]
+            }
+        } else if t.bundled {
+            corrupt::select(&all, 512, 1, if big { 400 } else { 1 }, seed)
+        } else if first_of_class || t.name.contains("extra/") {
+            corrupt::select(&all, 256, 2, if big { 100 } else { 4 }, seed)
+        } else {
+            corrupt::select(&all, 128, 12, 48, seed)
+        };
+        if !quick && (t.bundled || first_of_class) {
+            let mut r = Rng::new(seed ^ 0xD0B1E);
+            sel.extend(corrupt::double_faults(&all, if t.bundled { 400 } else { 100 }, &mut r));
+        }
+        n_selected += sel.len();
+        for c in &sel {
+            *kinds.entry(c.kind).or_insert(0) += 1;
+        }
+        // command rotation: the j-th selected fault of a target goes to command (j + rotation)
+        let rot = (seed % 7) as usize;
+        let with_cmd: Vec<(usize, Corruption)> = sel.into_iter().enumerate().map(|(j, c)| (j + rot, c)).collect();
+        for ch in with_cmd.chunks(48) {
+            work.push((ti, ch.to_vec()));
+        }
+    }
+    let (_r, st, mut findings, mut herr) = par_map(ctx, &work, |w, _, (ti, vs)| {
+        let t = &targets[*ti];
+        for (k, c) in vs {
+            let case = target_case(t, *k, &c.ops, "");
+            w.judge(&case);
+        }
+    });
+    stats.merge(st);
+
+    // ---- read-time faults on the pristine bundled files (every command)
+    let bundled: Vec<(usize, usize)> = targets.iter().enumerate().filter(|(_, t)| t.bundled).flat_map(|(ti, t)| (0..n_commands(t)).map(move |k| (ti, k))).collect();
+    let bundled = if quick { thin(&bundled, 40, ctx.seed) } else { bundled };
+    let (_r, st, f2, h2) = par_map(ctx, &bundled, |w, _, (ti, k)| {
+        let t = &targets[*ti];
+        let base = target_case(t, *k, &[], "");
+        let g = w.golden(&base);
+        if g.is_empty() {
+            return;
+        }
+        let mut vs = enumerate_faults(0, &g[0], &FaultSpace { read_side: true, write_side: false, budgets: Budgets::Boundaries, seed: 0 });
+        vs.extend(noise_variants(0, true, false));
+        if quick {
+            vs = thin(&vs, 24, rng::mix(w.ctx.seed, &base.name, 3));
+        }
+        for v in vs {
+            let plan = v.plan.as_ref().map(|p| p.1.clone()).unwrap_or_default();
+            let mut case = target_case(t, *k, &[], &plan);
+            case.name = format!("{} [{}]", case.name, v.tag);
+            // (a read fault may hit a mapfile; the error then rightly names that file instead)
+            case.meta = json!({});
+            w.judge(&case);
+        }
+    });
+    stats.merge(st);
+    findings.extend(f2);
+    herr.extend(h2);
+
+    let mut extra = BTreeMap::new();
+    extra.insert("targets".into(), json!(targets.len()));
+    extra.insert("bundled_targets".into(), json!(targets.iter().filter(|t| t.bundled).count()));
+    extra.insert("single_fault_space_size".into(), json!(n_space));
+    extra.insert("storage_faults_selected".into(), json!(n_selected));
+    extra.insert("storage_fault_kinds_selected".into(), json!(kinds));
+    let samples: Vec<_> = work.iter().step_by((work.len() / 3).max(1)).take(3).map(|(ti, vs)| json!({"target": targets[*ti].name, "command": target_case(&targets[*ti], vs[0].0, &[], "").steps[0].argv.join(" "), "corruption": vs[0].1.ops})).collect();
+    CheckResult {
+        property: "C16".into(),
+        level: "fault_enumeration",
+        stats,
+        findings,
+        harness_errors: herr,
+        rule: "storage faults enumerated per target file (truncation at every offset; 8 byte values, 8 word values, 16 dword values per aligned offset; zero/dup/del blocks; torn mixes), header-weighted seed-rotated slice in quick, complete for bundled files <= 4 KiB in thorough (plus seeded double faults); each selected fault is fed to one of the commands (5 decompile option sets, extract, compile -i) in rotation; read-time faults (errno, short read, EINTR, chunking) on every read event of every command on the pristine bundled files; non-trivial = input corrupted or fault fired; distinct = (target, command, corruption/plan)".into(),
+        samples,
+        extra,
+        exhaustive: false,
+        assumptions: vec![
+            "release profile (overflow checks off), as shipped".into(),
+            "CPU budget 10 s (confirmed once at 60 s) stands for 'hang'; address-space budget 1 GiB stands for 'exhausts memory' (inputs are < 64 KiB)".into(),
+        ],
+    }
+}
